@@ -10,6 +10,8 @@ package indexes
 //	open-idx <kind> <file hex> <key hex>
 //	                              OpenWithReader_<kind> (cid-to-offset-and-size, slot-to-cid, sig-to-cid,
 //	                              pubkey-to-offset-and-size) + Get + Meta with and without prefetch -> nopanic
+//	                              kinds s2c / sig2c fall through to the deprecated 36-byte-value reader when the file
+//	                              carries the old magic; c2o-old = Deprecated_OpenWithReader_CidToOffset (8-byte values)
 //
 // Valid index files come from the real writers.
 
@@ -25,6 +27,8 @@ import (
 	"github.com/gagliardetto/solana-go"
 	"github.com/ipfs/go-cid"
 	"github.com/rpcpool/yellowstone-faithful/compactindexsized"
+	"github.com/rpcpool/yellowstone-faithful/deprecated/compactindex"
+	"github.com/rpcpool/yellowstone-faithful/deprecated/compactindex36"
 	"github.com/rpcpool/yellowstone-faithful/indexmeta"
 	c12 "github.com/rpcpool/yellowstone-faithful/zzc12"
 	zz "github.com/rpcpool/yellowstone-faithful/zzverif"
@@ -105,6 +109,16 @@ func c12ExecIdx(op string) string {
 				var sig solana.Signature
 				copy(sig[:], key)
 				r.Get(sig)
+			case "c2o-old":
+				r, err := Deprecated_OpenWithReader_CidToOffset(rd)
+				if err != nil {
+					return "err"
+				}
+				r.Prefetch(pf)
+				r.Meta()
+				if c, err := cid.Cast(key); err == nil {
+					r.Get(c)
+				}
 			case "pk2o":
 				r, err := OpenWithReader_PubkeyToOffsetAndSize(rd)
 				if err != nil {
@@ -221,6 +235,66 @@ func c12BuildIndex(dir string, rng *zz.RNG, kind string, n int) ([]byte, [][]byt
 	if path == "" {
 		m, _ := filepath.Glob(filepath.Join(dst, "*"))
 		path = m[0]
+	}
+	data, err := os.ReadFile(path)
+	if err != nil {
+		panic(err)
+	}
+	return data, keys
+}
+
+// c12BuildOld builds an index in one of the two deprecated formats with the deprecated builders.
+func c12BuildOld(dir string, rng *zz.RNG, kind string, n int) ([]byte, [][]byte) {
+	tmp, _ := os.MkdirTemp(dir, "o") // the builder's scratch directory: Close removes it
+	out, _ := os.MkdirTemp(dir, "oo")
+	path := filepath.Join(out, "old.index")
+	f, err := os.OpenFile(path, os.O_CREATE|os.O_RDWR, 0o644)
+	if err != nil {
+		panic(err)
+	}
+	defer f.Close()
+	var keys [][]byte
+	ctx := context.Background()
+	switch kind {
+	case "c2o-old":
+		b, err := compactindex.NewBuilder(tmp, uint(n), 1<<40)
+		if err != nil {
+			panic(err)
+		}
+		for i := 0; i < n; i++ {
+			c := c12MkCid(rng)
+			keys = append(keys, c.Bytes())
+			if err := b.Insert(c.Bytes(), rng.U64()%(1<<40)); err != nil {
+				panic(err)
+			}
+		}
+		if err := b.Seal(ctx, f); err != nil {
+			panic(err)
+		}
+		b.Close()
+	default: // s2c / sig2c in the 36-byte-value format
+		b, err := compactindex36.NewBuilder(tmp, uint(n), 0)
+		if err != nil {
+			panic(err)
+		}
+		for i := 0; i < n; i++ {
+			var k []byte
+			if kind == "s2c" {
+				k = Uint64tob(uint64(7*432000 + i))
+			} else {
+				k = rng.Bytes(64)
+			}
+			keys = append(keys, k)
+			var v [36]byte
+			copy(v[:], c12MkCid(rng).Bytes())
+			if err := b.Insert(k, v); err != nil {
+				panic(err)
+			}
+		}
+		if err := b.Seal(ctx, f); err != nil {
+			panic(err)
+		}
+		b.Close()
 	}
 	data, err := os.ReadFile(path)
 	if err != nil {
@@ -348,6 +422,32 @@ func c12GenIdx(dir string, rng *zz.RNG, s *zz.Session, thorough bool) []string {
 			ops = append(ops, "open-idx "+kind+" "+zz.Hex(mu.Data)+" "+zz.Hex(keys[mi%len(keys)]))
 		}
 		s.Count("valid-files")
+	}
+	// the two deprecated formats: 32-byte header (magic, file size, bucket count, version, 11 zero bytes), bucket table
+	for _, kind := range []string{"s2c", "sig2c", "c2o-old"} {
+		n := 6
+		if thorough {
+			n = 60
+		}
+		data, keys := c12BuildOld(dir, rng, kind, n)
+		fields := []c12.Field{
+			{Name: "old.fileSize", Off: 8, Width: 8},
+			{Name: "old.numBuckets", Off: 16, Width: 4},
+			{Name: "old.version", Off: 20, Width: 1},
+			{Name: "old.pad", Off: 21, Width: 1},
+			{Name: "old.bucket.hashDomain", Off: 32, Width: 4},
+			{Name: "old.bucket.numEntries", Off: 36, Width: 4},
+			{Name: "old.bucket.hashLen", Off: 40, Width: 1},
+			{Name: "old.bucket.fileOffset", Off: 42, Width: 6},
+		}
+		nb, nr := 100, 20
+		if thorough {
+			nb, nr = 500, 200
+		}
+		for mi, mu := range c12.Mutate(rng, data, fields, nb, nr, s.Count) {
+			ops = append(ops, "open-idx "+kind+" "+zz.Hex(mu.Data)+" "+zz.Hex(keys[mi%len(keys)]))
+		}
+		s.Count("valid-files-deprecated-format")
 	}
 	return ops
 }
